@@ -404,6 +404,31 @@ func (fr *frame) codecMethod(st *PState, m string, args []Val, sig *types.Signat
 		}
 		val := ex.Unm(et, bz)
 		st.FlushSide()
+		// The generated (gogoproto) Unmarshal does not reset its target: fields absent from the bytes (zero values are
+		// not encoded) keep what the target held. Only a target that holds the zero value is known to end up as the
+		// decoded message; any other target ends up as an unknown merge of the two.
+		cur := ex.reify(st, st.LoadPtr(p), et)
+		isZero := cur.S == ex.ZeroOf(et).S
+		if !isZero {
+			c := cur.S
+			if strings.HasPrefix(c, "(select ") {
+				// a heap object: look the stored value up through the chain of stores
+				if sx, err := parseSexprs(c); err == nil && len(sx) == 1 && len(sx[0].list) == 3 {
+					if v, ok := st.resolveSelect(sx[0].list[1].String(), sx[0].list[2].String()); ok {
+						c = v
+					}
+				}
+			}
+			if !strings.HasPrefix(c, "(") {
+				if body, ok := st.defOf(c); ok {
+					c = body
+				}
+			}
+			isZero = c == ex.ZeroOf(et).S
+		}
+		if !isZero {
+			val = ex.mergeUnm(st, cur, val, et)
+		}
 		if strings.HasPrefix(m, "Must") {
 			st.StorePtr(p, st.Name("unm", val))
 			return T{S: "unit", Sort: SUnit}, true
@@ -411,7 +436,6 @@ func (fr *frame) codecMethod(st *PState, m string, args []Val, sig *types.Signat
 		// Unmarshal may fail on malformed bytes: error is unconstrained; on success the target is the decoded value
 		errv := st.Fresh("unmerr", SIface)
 		st2val := st.Name("unm", val)
-		cur := ex.reify(st, st.LoadPtr(p), et)
 		st.StorePtr(p, Ite(Eq(errv, T{S: "inil", Sort: SIface}), st2val, cur))
 		return errv, true
 	}
@@ -475,4 +499,45 @@ func (fr *frame) builtin(st *PState, b *ssa.Builtin, c *ssa.CallCommon, site ssa
 func withRecv(sig *types.Signature, recvT types.Type) *types.Signature {
 	recv := types.NewVar(0, nil, "recv", recvT)
 	return types.NewSignatureType(recv, nil, nil, sig.Params(), sig.Results(), sig.Variadic())
+}
+
+// mergeUnm is what a generated (gogoproto) Unmarshal leaves in a target that held cur when the bytes decode to dec:
+// a field of struct type (non-nullable message or custom type: math.Int, LegacyDec, time) is always present in the
+// encoding and is overwritten; a scalar field (numbers, bool, string, bytes) is encoded only when it is not the zero
+// value, so the target keeps its old content when the decoded field is zero; repeated, optional-message and map fields
+// are appended to / merged into what the target held, which is modelled only for an empty target field (otherwise the
+// field becomes an unconstrained value).
+func (ex *Exec) mergeUnm(st *PState, cur, dec T, et types.Type) T {
+	si := ex.Sorts.StructInfoOf(et)
+	if si == nil {
+		ex.Assumed["Unmarshal into a non-struct target that is not known to be zero yields an unconstrained value"] = true
+		return st.FreshOf("unm_merged", et)
+	}
+	args := make([]T, len(si.Fields))
+	for i, f := range si.Fields {
+		cf, df := ex.Sorts.Field(cur, si, i), ex.Sorts.Field(dec, si, i)
+		switch u := f.Go.Underlying().(type) {
+		case *types.Struct:
+			_ = u
+			args[i] = df
+		case *types.Basic:
+			args[i] = Ite(Eq(df, ex.ZeroOf(f.Go)), cf, df)
+		default:
+			isBytes := f.Sort == SBytes
+			if isBytes {
+				args[i] = Ite(Or(Eq(df, bnilT), Eq(App(SInt, "blen", df), IntLit(0))), cf, df)
+				break
+			}
+			if cf.S == ex.ZeroOf(f.Go).S {
+				args[i] = df
+				break
+			}
+			ex.Assumed["Unmarshal into a target whose repeated/optional field "+si.Sort+"."+f.Name+" is not known to be empty: field unconstrained (generated Unmarshal appends/merges)"] = true
+			fr := st.FreshOf("unm_merged_"+sanitize(f.Name), f.Go)
+			args[i] = fr
+		}
+	}
+	r := App(si.Sort, si.Ctor, args...)
+	r.Go = et
+	return r
 }
